@@ -223,23 +223,30 @@ _cases.append(_split('<', 'direct', True, True))
 register(MQ + '_apply_matcher_split', _cases, props=('C05', 'C08'))
 
 
-# ============================================================================ generate_tokens (assumed)
+# ============================================================================ generate_tokens
 class GenerateTokens(Case):
-    """dict(zip(keys of non-null rows, tokenize(value))): the cache maps every key whose value is
-    present to the token list of that value (pandas Series.apply / zip / dict: assumed)"""
+    """the token cache maps every key whose value is present to the token list of that value
+    (verified against the pandas model: df[notnull mask], Series.apply, dict(zip))"""
     name = 'default'
-    status = 'assumed'
     params = OD([('table', DF), ('key_attr', VAL), ('join_attr', VAL), ('tokenizer', TOKENIZER)])
     returns = TOKMAP
 
-    def requires(self, c):
+    @staticmethod
+    def ix(c):
         cols = rec_field(c.p('table'), 'cols')
-        return [('attributes-are-columns', z3.And(S.in_list(cols, c['key_attr']), S.in_list(cols, c['join_attr'])))]
+        return col_index(cols.t, c['key_attr']), col_index(cols.t, c['join_attr'])
+
+    def requires(self, c):
+        t = c.p('table')
+        cols = rec_field(t, 'cols')
+        k_, m_ = self.ix(c)
+        return [('attributes-are-columns', z3.And(S.in_list(cols, c['key_attr']), S.in_list(cols, c['join_attr']))),
+                ('keys-distinct', key_col_distinct(rec_field(t, 'rows'), k_))]
 
     def ensures(self, c, res):
         t = c.p('table')
-        rows, cols = rec_field(t, 'rows'), rec_field(t, 'cols')
-        k_, m_ = col_index(cols.t, c['key_attr']), col_index(cols.t, c['join_attr'])
+        rows = rec_field(t, 'rows')
+        k_, m_ = self.ix(c)
         rs = c.f(c.p('tokenizer'), 'return_set')
         r = z3.Int('r!gt')
         key, val = L_get(LV, at(rows, r), k_), L_get(LV, at(rows, r), m_)
@@ -247,7 +254,7 @@ class GenerateTokens(Case):
             D_has(TOKMAP, res.t, key), D_get(TOKMAP, res.t, key) == S.toks(rs, val))), [at(rows, r)]))]
 
 
-register(MQ + 'generate_tokens', [GenerateTokens()])
+register(MQ + 'generate_tokens', [GenerateTokens()], props=('C05',))
 
 
 # ============================================================================ apply_matcher
